@@ -13,7 +13,7 @@ for i in ids:
         replay_cmd_template='./check %s --replay {path}' % i, engine='vpsx' + ('+cbmc' if i in props.EXTRA else ''),
         level_claimed=dict(category='other', text=P['explanation'], design_ref='DESIGN.md section 6/' + i),
         level_note='Bounded: ' + json.dumps(P['bounds']) + '. Trusted base: clang-14 IR at -O1, libLLVM IR reader, z3 4.8.12, the vpsx interpreter (validated each run by native replay of every model and differential digests), engine/shim_std.cpp, the in-harness oracle. Outside the claim: ' + '; '.join(P.get('outside', [])),
-        technique=P.get('technique', 'bounded symbolic execution of the real code (clang LLVM IR) with z3 deciding every branch and assertion; counterexamples replayed natively')))
+        technique=P.get('technique', 'bounded symbolic execution of the real code (clang LLVM IR, own executor vpsx) with z3 deciding every branch and assertion over all values inside the stated bounds (structural choices and, in the units marked enumerated, input values are enumerated by the solver: one path per feasible value, none sampled); counterexamples replayed natively')))
 na = [dict(property_id=i, reason=props.NOT_APPLICABLE.get(i, 'check not built yet (work in progress)')) for i in ids if i not in [c['property_id'] for c in checks]]
 m = dict(version=1, setup_cmd='./setup.sh',
   hooks=dict(guard='GUDHI_VERIF_HOOKS', enable='harnesses are compiled by ./check with -DGUDHI_VERIF_HOOKS against /repo/src/*/include (header-only library; no cmake involvement)', baseline_off_cmd='./baseline_off.sh', source_commits=[c for c in commits if c], add_only=True),
